@@ -201,13 +201,18 @@ def norm(e):
     return e
 
 
-def run_history(hist, acc, with_pid0=False):
+def run_history(hist, acc, with_pid0=False, caller_pid=None):
     env = setup()
     H = env["H"]
     viols = []
     nontrivial = False
     seen_gone = set()       # handle indexes that psutil has already observed as gone while the pid was free
     w = H.World(env["ps"], with_pid0=with_pid0)
+    # caller_pid: os.getpid() answers this pid - the program itself is (after a fork) the process that was handed the
+    # recycled pid, and still holds objects made for the previous owner
+    w.t.fake_getpid = caller_pid
+    if caller_pid is not None:
+        acc.count("histories_where_the_caller_owns_the_recycled_pid")
     with w:
         for op in hist:
             op = tuple(op)
@@ -288,6 +293,8 @@ def run_history(hist, acc, with_pid0=False):
                     if rec["res"][0] != "exc:ValueError":
                         viols.append(("negative_pid_accepted", ctx))
     case = dict(hist=[list(o) for o in hist], pid0=with_pid0)
+    if caller_pid is not None:
+        case["caller_pid"] = caller_pid
     acc.case(case, nontrivial, viols, sample=dict(case, records=[H.summarize(r) for r in w.records][:30]))
 
 
@@ -481,6 +488,102 @@ def run_live_reuse(shard, acc):
     harness.mark_current(None)
 
 
+# ---- a call that blocks between the reuse check and the delivery ------------------------------------------------
+
+class _WatchedLock:
+    """Stands in for Process._lock: same behaviour, but tells when a thread is waiting for it."""
+
+    def __init__(self, real):
+        self._real = real
+        self.waiting = False
+
+    def acquire(self, *a, **k):
+        if self._real.acquire(False):
+            return True
+        self.waiting = True
+        try:
+            return self._real.acquire(*a, **k)
+        finally:
+            self.waiting = False
+
+    def release(self):
+        return self._real.release()
+
+    def __enter__(self):
+        self.acquire()
+        return self
+
+    def __exit__(self, *a):
+        self.release()
+
+
+def run_blocked_call(case, acc):
+    """Thread 1 sits inside `with p.oneshot()` (which holds the object's lock); thread 2 issues a signal / setter on the same
+    object. If - and only if - thread 2 is seen *waiting for that lock*, the process ends, its pid is handed to another one,
+    and only then thread 1 leaves its block.  Whatever thread 2 finally delivers must not reach the new owner.  (A call that
+    never waits completes before anything changes: nothing to decide then.)"""
+    import threading
+    import time
+    env = setup()
+    ps, H = env["ps"], env["H"]
+    opname = case["op"]
+    viols = []
+    w = H.World(ps)
+    with w:
+        w.apply(("spawn", PID, False))
+        w.apply(("new", PID))
+        h = w.handles[0]
+        old_inc = h.inc
+        lock = _WatchedLock(h.obj._lock)
+        h.obj._lock = lock
+        inside, leave = threading.Event(), threading.Event()
+        out = {}
+
+        def t1():
+            with h.obj.oneshot():
+                h.obj.name()
+                inside.set()
+                leave.wait(30)
+
+        def t2():
+            fn = {"kill": h.obj.kill, "terminate": h.obj.terminate, "suspend": h.obj.suspend,
+                  "send_signal": lambda: h.obj.send_signal(10), "nice": lambda: h.obj.nice(5),
+                  "ionice": lambda: h.obj.ionice(2, 3), "affinity": lambda: h.obj.cpu_affinity([0]),
+                  "rlimit": lambda: h.obj.rlimit(7, (5, 9))}[opname]
+            try:
+                fn()
+                out["res"] = "returned"
+            except ps.NoSuchProcess:
+                out["res"] = "NoSuchProcess"
+            except Exception as e:  # noqa: BLE001
+                out["res"] = type(e).__name__
+        a = threading.Thread(target=t1, daemon=True)
+        b = threading.Thread(target=t2, daemon=True)
+        a.start()
+        inside.wait(30)
+        ev0 = len(w.vk.events)
+        b.start()
+        while b.is_alive() and not lock.waiting:
+            time.sleep(0.0005)
+        blocked = b.is_alive() and lock.waiting
+        if blocked:
+            acc.count("calls_seen_blocked_between_check_and_delivery")
+            w.t.remove(PID)
+            newp = w.t.spawn(PID, 9000, ppid=1, comm=b"newcomer")
+        leave.set()
+        a.join(30)
+        b.join(30)
+        acc.count("signals_on_recycled_pid" if blocked else "signals_on_live_target")
+        acc.count("sink_events_checked", len(w.vk.events) - ev0)
+        if blocked:
+            for e in w.vk.events[ev0:]:
+                if e[0] != "reaped" and not (e[0] == "kill" and e[2] == 0) and e[-1] == newp.inc:
+                    viols.append((f"delivered_to_new_owner:call_blocked_between_check_and_delivery:{opname}",
+                                  f"{opname}() waited for the object's lock (held by another thread's oneshot block) after its reuse check; "
+                                  f"the process ended and pid {PID} was recycled meanwhile; delivered {list(e)}; outcome {out.get('res')}"))
+    acc.case(dict(kind="blocked_call", op=opname), blocked, viols)
+
+
 def plan(tier, seed):
     depth = 5 if tier == "quick" else 6
     nrand = 48000 if tier == "quick" else 600000
@@ -508,6 +611,8 @@ def run_shard(shard):
         for h in signo_histories():
             run_history(h, acc)
         acc.count("exhaustive_signal_numbers", len(SIGNOS))
+        for opname in ("kill", "terminate", "suspend", "send_signal", "nice", "ionice", "affinity", "rlimit"):
+            run_blocked_call(dict(op=opname), acc)
         acc.exhaustive = True
     elif k == "enum":
         hs = enum_histories(shard["depth"])
@@ -516,11 +621,13 @@ def run_shard(shard):
         for i, h in enumerate(hs):
             if i % shard["parts"] == shard["part"]:
                 run_history(h, acc)
+                if i % 7 == 0:
+                    run_history(h, acc, caller_pid=PID)
         acc.exhaustive = True
     elif k == "rand":
         for i in range(shard["start"], shard["start"] + shard["count"]):
             rng = harness.rng_for(shard["seed"], "c01", i)
-            run_history(gen_random(rng), acc, with_pid0=False)
+            run_history(gen_random(rng), acc, with_pid0=False, caller_pid=(rng.choice([7, 8, 9]) if i % 6 == 0 else None))
     elif k == "suite_audit":
         run_suite_audit(shard, acc)
     elif k == "live_reuse":
@@ -534,5 +641,8 @@ def run_shard(shard):
             if case.get("kind") == "suite_audit":
                 run_suite_audit(dict(files=case["files"]), acc)
                 continue
-            run_history([tuple(o) for o in case["hist"]], acc, with_pid0=case.get("pid0", False))
+            if case.get("kind") == "blocked_call":
+                run_blocked_call(case, acc)
+                continue
+            run_history([tuple(o) for o in case["hist"]], acc, with_pid0=case.get("pid0", False), caller_pid=case.get("caller_pid"))
     return acc.result()
